@@ -485,25 +485,26 @@ package parsley
 
 //@ -- ------------------------------------------------------------ evaluation
 //@ -- Values of nodes are computed by user code (interpreters): their contracts are assumptions on every
-//@ -- implementation -- they return, and write at most node fields.
+//@ -- implementation -- they return, and write at most node fields other than the child lists (evaluation does not
+//@ -- restructure the tree: Object reads an entry's children again after it evaluated the key).
 //@ interface parsley.LiteralNode.Value(n LiteralNode) (v interface{})
 //@   requires n != nil
 //@   assigns  nothing
 //@ interface parsley.NonLiteralNode.Value(n NonLiteralNode, userCtx interface{}) (v interface{}, err Error)
 //@   requires n != nil
 //@   ensures  err != nil ==> err.Pos() >= 0
-//@   assigns  fields[Node]()
+//@   assigns  fields[Node]("children")
 //@ interface parsley.Interpreter.Eval(i Interpreter, userCtx interface{}, node NonTerminalNode) (v interface{}, err Error)
 //@   requires i != nil && node != nil
 //@   ensures  err != nil ==> err.Pos() >= 0
-//@   assigns  fields[Node]()
+//@   assigns  fields[Node]("children")
 
 //@ -- EvaluateNode: a literal's value, a non-literal's computed value, or the "no value" error at the node's position
 //@ func EvaluateNode(ctx interface{}, node Node) (v interface{}, err Error)
 //@   props C04,C13
 //@   requires node != nil && NodeOK(node)
 //@   ensures  err != nil ==> err.Pos() >= 0
-//@   assigns  fields[Node]()
+//@   assigns  fields[Node]("children")
 
 //@ -- Evaluate: a value or an error; it never reaches EvaluateNode without a node
 //@ func Evaluate(ctx *Context, p Parser) (v interface{}, err error)
